@@ -6,6 +6,7 @@ import Driver.Edit
 import Driver.Lower
 import Driver.Helpers
 import Driver.Sem
+import Driver.Types
 open Driver
 
 def step (line : String) : List String :=
@@ -18,6 +19,7 @@ def step (line : String) : List String :=
   | "lower" :: rest => runLower rest
   | "helpers" :: rest => runHelpers rest
   | "sem" :: rest => runSem rest
+  | "types" :: rest => runTypes rest
   | [] => []
   | f :: _ => [s!"{f} ? unknown-family"]
 
